@@ -86,6 +86,7 @@ class GenCtx:
         self.features = set()
         self.budget = cfg.get("max_states", 6)
         self.miss_used = False
+        self.in_failing_branch = False
         self.allow_miss = cfg.get("misses", True) and draw(st.integers(0, 9)) == 0
 
     def feature(self, f):
@@ -135,6 +136,9 @@ def draw_path(g, data, want="any", allow_miss=True):
 
 def draw_template(g, data, in_map=False, depth=0):
     d = g.draw
+    if depth == 0 and d(st.integers(0, 11)) == 0:
+        g.feature("template-empty")
+        return {}
     n = d(st.integers(1, 3))
     tpl = {}
     for i in range(n):
@@ -360,12 +364,13 @@ def gen_block(g, data, depth, in_map=False, top=False, allow_errors=True):
         if depth < g.cfg.get("max_depth", 1) and g.budget > 2:
             kinds += ["Parallel", "Map"] * (2 if g.cfg.get("fanout_heavy") else 1)
         if last and d(st.integers(0, 9)) < 2:
-            kinds = ["Succeed", "Fail"] if top and allow_errors and g.cfg.get("fail_states", True) else ["Succeed"]
+            kinds = ["Succeed", "Fail"] if (top or g.in_failing_branch) and allow_errors and g.cfg.get("fail_states", True) else ["Succeed"]
         kind = d(st.sampled_from(kinds))
         if kind == "Pass":
             s = gen_pass(g, name, cur)
         elif kind == "Task":
-            s = gen_task(g, name, cur, allow_errors=allow_errors, in_map=in_map)
+            s = gen_task(g, name, cur, allow_errors=allow_errors, in_map=in_map,
+                         handlers=not (g.in_failing_branch and d(st.integers(0, 9)) < 7))
         elif kind == "Wait":
             s = gen_wait(g, name, cur)
         elif kind == "Succeed":
@@ -434,6 +439,23 @@ def gen_block(g, data, depth, in_map=False, top=False, allow_errors=True):
             n_here = i + 1   # the catcher's target still has to be generated
 
 
+def add_fanout_handlers(g, s, errnames=("ErrA", "ErrB", "Custom.Error", "MyError", "E.1", "States.Custom")):
+    """Retry / Catch on a Parallel or Map state (the Catch target is filled in by gen_block)."""
+    d = g.draw
+    mode = d(st.sampled_from(["none", "catch", "catch", "catch", "retry", "both"]))
+    if mode in ("retry", "both"):
+        s["Retry"] = [{"ErrorEquals": d(st.sampled_from([["States.ALL"], list(errnames[:3]), ["Nope"]])),
+                       "IntervalSeconds": d(st.integers(1, 2)), "MaxAttempts": d(st.integers(0, 2)), "BackoffRate": d(st.sampled_from([1.0, 2.0]))}]
+        g.feature("fanout-Retry")
+    if mode in ("catch", "both"):
+        c = {"ErrorEquals": d(st.sampled_from([["States.ALL"], ["States.ALL"], list(errnames), ["Nope"]])), "Next": None}
+        rpth = d(st.sampled_from(["absent", "$", "$.err", "$.err", None, "$.a.e", "$.o.caught"]))
+        if rpth != "absent":
+            c["ResultPath"] = rpth
+        s["Catch"] = [c]
+        g.feature("fanout-Catch")
+
+
 def gen_parallel(g, name, data, depth, allow_errors):
     d = g.draw
     s = {"Type": "Parallel", "Branches": []}
@@ -441,9 +463,23 @@ def gen_parallel(g, name, data, depth, allow_errors):
     ev = g.eval_state(name + "_in", {"Type": "Pass", "End": True, **{k: v for k, v in s.items() if k in ("InputPath", "Parameters")}}, data)
     eff = ev[2] if ev[0] == "ok" else data
     nb = d(st.integers(2, g.cfg.get("max_branches", 3)))
-    for _ in range(nb):
+    # at most one branch may fail (several concurrent failures are C06's family)
+    nested_in_failing = g.in_failing_branch
+    if nested_in_failing and allow_errors:
+        fail_idx = d(st.integers(0, nb - 1))         # only one sub-branch inherits the permission to fail
+    elif allow_errors and d(st.integers(0, 99)) < g.cfg.get("branch_fail_pct", 40):
+        fail_idx = d(st.integers(0, nb - 1))
+    else:
+        fail_idx = -1
+    for i in range(nb):
         g.budget = max(g.budget, 2)
-        s["Branches"].append(gen_block(g, eff, depth + 1, allow_errors=allow_errors and g.cfg.get("branch_errors", False)))
+        saved = g.in_failing_branch
+        g.in_failing_branch = (i == fail_idx)
+        s["Branches"].append(gen_block(g, eff, depth + 1, allow_errors=(i == fail_idx)))
+        g.in_failing_branch = saved
+    if fail_idx >= 0 and not nested_in_failing:
+        g.feature("fanout-with-failing-branch")
+        add_fanout_handlers(g, s)
     if d(st.integers(0, 9)) < 3:
         s["ResultSelector"] = {"first.$": "$[0]", "all.$": "$"}
         g.feature("ResultSelector")
@@ -480,12 +516,26 @@ def gen_map(g, name, data, depth, allow_errors):
         ev = g.eval_state(name + "_sel", {"Type": "Pass", "End": True, "Parameters": s["ItemSelector"]}, data, ictx)
         eff = ev[2] if ev[0] == "ok" else sample_item
     g.budget = max(g.budget, 2)
-    # the iterator is generated against the first item; paths inside it may miss for other items,
-    # so items are kept homogeneous by the input generator
-    saved = g.cfg.get("misses", True)
-    g.cfg["misses"] = False
-    s[key] = gen_block(g, eff, depth + 1, in_map=True, allow_errors=allow_errors and g.cfg.get("branch_errors", False))
-    g.cfg["misses"] = saved
+    scalar_items = bool(items) and all(not isinstance(x, (dict, list)) for x in items) and "ItemSelector" not in s
+    if allow_errors and not g.in_failing_branch and scalar_items and d(st.integers(0, 99)) < g.cfg.get("branch_fail_pct", 40):
+        # one iteration fails: the iterator starts with a Task whose behaviour depends on the item
+        tn, pn = g.names.fresh(), g.names.fresh()
+        fn = "f_" + tn
+        bad = d(st.sampled_from(items))
+        err = d(st.sampled_from(["ErrA", "ErrB", "Custom.Error"]))
+        seq = d(st.sampled_from([[{"err": err, "msg": "boom"}], [{"err": err, "msg": "boom"}, {"ok": "$echo"}]]))
+        g.oracle[fn] = {"seq": [{"ok": "$echo"}], "by_key": {json.dumps(bad): seq}}
+        s[key] = {"StartAt": tn, "States": {tn: {"Type": "Task", "Resource": "arn:aws:rpcmessage:local::function:" + fn, "Next": pn},
+                                            pn: {"Type": "Pass", "End": True}}}
+        g.feature("fanout-with-failing-branch")
+        g.feature("map-failing-item")
+        add_fanout_handlers(g, s)
+    else:
+        # the iterator is generated against the first item; paths inside it may miss for other items
+        saved = g.cfg.get("misses", True)
+        g.cfg["misses"] = False
+        s[key] = gen_block(g, eff, depth + 1, in_map=True, allow_errors=False)
+        g.cfg["misses"] = saved
     mc = d(st.integers(0, len(items) + 1))
     if mc or d(st.booleans()):
         s["MaxConcurrency"] = mc
